@@ -347,6 +347,8 @@ func replyEngine(args []string) error {
 		return replySeq(r, c.n, base, timeout)
 	case "conc":
 		return replyConc(r, c.n, base)
+	case "tcpstorm":
+		return replyTCPStorm(r, c.n, base)
 	case "replay":
 		t := strings.Fields(c.extra)
 		if len(t) < 5 {
@@ -745,6 +747,99 @@ func replyConc(r *rng, n int, base int) error {
 		w.up.script = map[string]*behaviour{}
 		w.up.mu.Unlock()
 		done += total
+	}
+	return nil
+}
+
+// ---- mode tcpstorm: many pipelined queries on ONE TCP connection, all handlers released
+// at the same instant, so that their replies are written concurrently on that connection.
+// Each reply must arrive as one intact frame (F15: prefix and body were two writes).
+func replyTCPStorm(r *rng, n int, base int) error {
+	w, err := newWorld(base, 256, 3*time.Second)
+	if err != nil {
+		return err
+	}
+	defer w.stop()
+	serial := 0
+	corrupted := 0
+	for round := 0; round < n; round++ {
+		k := r.rng(40, 120)
+		g := newGroup(k)
+		ids := map[int]bool{}
+		type it struct {
+			c    replyCase
+			name string
+		}
+		var items []it
+		var raw []byte
+		for j := 0; j < k; j++ {
+			serial++
+			uniq := fmt.Sprintf("s%d", serial)
+			var q []byte
+			for {
+				ms := msgSpec{id: r.intn(65536), flags: 0x0100, qs: [][]byte{question(encodeLabels([][]byte{[]byte(uniq), []byte("storm")}), 1, 1)}}
+				q = ms.encode()
+				id := int(q[0])<<8 | int(q[1])
+				if !ids[id] {
+					ids[id] = true
+					break
+				}
+			}
+			qc := qcase{q, -1, "wf"}
+			c := replyCase{id: fmt.Sprintf("storm%d", serial), proto: "tcp", q: q, kind: "up", adv: -1}
+			for {
+				c.upPre, c.upFill = genResponse(r, qc)
+				if len(c.upPre)+c.upFill >= 12 {
+					break
+				}
+			}
+			c.upFill += r.intn(3) * 700 // a mix of body sizes
+			c.upSeed = r.intn(256)
+			name := uniq + ".storm."
+			w.up.mu.Lock()
+			w.up.script[name] = &behaviour{kind: "up", msg: c.upMsg(), grp: g}
+			w.up.mu.Unlock()
+			items = append(items, it{c, name})
+			raw = append(raw, frame(q)...)
+		}
+		w.up.takeCalls()
+		st, _ := tcpExchange(w.addr, raw, k, 1500*time.Millisecond, 50*time.Millisecond)
+		var frames [][]byte
+		rest := st
+		for len(rest) >= 2 {
+			l := int(binary.BigEndian.Uint16(rest))
+			if len(rest) < 2+l {
+				break
+			}
+			frames = append(frames, rest[:2+l])
+			rest = rest[2+l:]
+		}
+		if len(frames) < k {
+			corrupted++
+		}
+		for _, x := range items {
+			var rep []byte
+			cnt := 0
+			for _, f := range frames {
+				if len(f) >= 4 && f[2] == x.c.q[0] && f[3] == x.c.q[1] {
+					cnt++
+					rep = f
+				}
+			}
+			head := rep
+			if len(head) > 16 {
+				head = head[:16]
+			}
+			emit("reply", x.c.id, "tcp", hx(x.c.q), "up", hxfill(x.c.upPre, x.c.upFill, x.c.upSeed), "-1", "=>",
+				itoa(cnt), hxo(rep), "0", hxo(x.c.q), itoa(len(rep)), hx(head))
+		}
+		w.up.mu.Lock()
+		w.up.script = map[string]*behaviour{}
+		w.up.mu.Unlock()
+		if corrupted >= 3 {
+			note("tcpstorm: %d rounds lost framing: stopping early", corrupted)
+			break
+		}
 	}
 	return nil
 }
